@@ -152,7 +152,7 @@ NA = {}
 
 # rules added in the third and fourth seeding rounds (appended after ADDENDA)
 ADDENDA2 = {
- "C01": (" FIRSTBUCKET-INV: a node's firstbucket is computed from the node's own contents (helper parameters decided at the call sites). SEP-REFRESH: decision table of the separator-refresh guard over (child index, entries left), C = Python. PY-DEL-TAIL: decision table over (child lost its first leaf, child 0, child empty, child is a leaf) of what _Tree._del does behind the child's delete - unlink calls, _firstbucket, removal of the child, flag returned.",
+ "C01": (" FIRSTBUCKET-INV: a node's firstbucket is computed from the node's own contents (helper parameters decided at the call sites). SEP-REFRESH: decision table of the separator-refresh guard over (child index, entries left), C = Python. PY-DEL-TAIL: decision table over (child lost its first leaf, child 0, child empty, child is a leaf) of what _Tree._del does behind the child's delete - unlink calls, _firstbucket, removal of the child, flag returned. NARROW-GUARD (integer conversions): every key of the declared type is storable - the range test of the key converter is exact. INPLACE-OPERAND / INPLACE-MONOTONE: the Python in-place set operators consume their operand once and never add and remove in one loop.",
          "; root/provenance analysis of firstbucket stores; decision tables of the delete tail"),
  "C02": (" MINMAX-TABLE: minKey(b)/maxKey(b) of the Python leaves and tree nodes and of C BTree_maxminKey/Bucket_maxminKey are walked by abstract interpreters over position atoms (bound before / on / on the last / between / behind the keys of the leaf it sorts into, successor present, child index 0, child's smallest key above the bound; C: empty, bound given, min/max, result of the endpoint search) and compared with the specification. FINDEND-TABLE: C BTree_findRangeEnd, descent included, over node roles for 72 valuations (levels, child index 0 or not per level, leaf search result, low/high, successor). RANGE-WIRING: with both bounds given BTree_rangeSearch searches (min, low=1, excludemin) and (max, low=0, excludemax) and builds the sequence from (LOW, LOW offset, HIGH, HIGH offset). ITER-CONTINUE is computed for five forms of the range arguments. SEEK-NET: BTreeItems_seek is interpreted abstractly as a whole, path by path over its syntax tree (polynomial values; helpers inlined, out-parameters followed, loops unrolled three times, contradictory paths dropped by bounds on linear forms); every successful return has committed pseudoindex == i and base(committed leaf) + offset == i, base being the index of a leaf's first item along the walk. GHOST-READ (pin typestate of C05) on the range / seek / min-max functions, their helpers and callers.",
          "; abstract interpretation of minKey/maxKey, the tree-level endpoint search and the range wiring over role / position atoms; path-sensitive abstract interpretation of the seek function (polynomial values, interval bounds on linear forms, bounded unrolling - no solver)"),
@@ -163,7 +163,7 @@ ADDENDA2 = {
          "; Python alias staleness walk over comparing calls"),
  "C06": (" SAME-VALUE and SEP-REFRESH as necessary conditions of equal states in C and Python; the class of a freshly built embedded leaf comes from self._bucket_type; PY-CLASS-IDENTITY: self.__class__ (a property that names the pickle replacement class) is never an operand of a type test or a constructor in _base.py.",
          "; who-may-use rule for the __class__ property"),
- "C09": (" PY-TAINT also forbids a modifying method to decide presence of the raw key through a read entry point; a success-flag out-parameter is an accepted way of reporting a failed conversion (EXC-LEAK).", ""),
+ "C09": (" PY-TAINT also forbids a modifying method to decide presence of the raw key through a read entry point; a success-flag out-parameter is an accepted way of reporting a failed conversion (EXC-LEAK). NARROW-GUARD (integer conversions): the C converters accept exactly the range of the slot type, as the Python datatypes do.", ""),
  "C10": (" ITER-EXHAUST: a success return after PyIter_Next produced an element is reachable only through the iterator's exhaustion. REAL-TYPE: no PyObject_IsInstance against the unit's own type objects in front of a struct cast (it asks __class__, which the pure-Python classes override to name the C class). ERR-SWALLOW decides 'guarded' as unreachability once the success edges of the class tests are removed.",
          "; typestate of PyIter_Next loops; who-may-call rule for PyObject_IsInstance"),
  "C11": (" UNIQ-COPY is a path rule for where the sorted keys are when uniq reads them. GHOST-READ (pin typestate of C05) on multiunion: the operands' keys are read from activated leaves.", "; pin typestate on multiunion"),
